@@ -203,6 +203,19 @@ def corpus():
         "requests": [http_req(1, resp=mk_resp(200, [], {"len": 5000, "seed": 7}, chunked=True)),
                      http_req(1, resp=cut_c), http_req(0, resp=cut_c), http_req(1, resp=cut_l), http_req(0, resp=cut_l)]})
     truth_views(cs[-1]["nodes"])
+    # the same transparency through a real agent reverse proxy in front of the service, incl. a service that dies mid-body
+    cut_a = mk_resp(200, [("X-R", "1")], {"len": 5000, "seed": 9}, chunked=True); cut_a["cut_after"] = 1200
+    cs.append({"id": "corpus-agent", "via_agent": True, "timeout_ms": NORMAL_TIMEOUT_MS, "kind": "consistent", "nodes": [
+        {"id": "n0", "upstreams": [], "view": []},
+        {"id": "n1", "upstreams": [up("u1", "e")], "view": []}],
+        "requests": [
+            http_req(0, method="POST", target="/a%2Fb/c%20d;p=1?x=1;y=2&z=&z", headers=[("X-A", "1"), ("x-a", "2"), ("X-B", ""), ("Cookie", "a=b; c=d"),
+                                                                                    ("User-Agent", "vh/1.0"), ("X-Forwarded-For", "9.9.9.9"), ("Accept-Encoding", "br")],
+                     body={"len": 70000, "seed": 4}, resp=mk_resp(201, [("X-R", "1"), ("x-r", "2"), ("Set-Cookie", "a=1"), ("Set-Cookie", "b=2")],
+                                                                 {"len": 70000, "seed": 3}, chunked=True)),
+            http_req(1, method="DELETE", target="/x?", resp=mk_resp(204, [("X-R", "1")], {"hex": ""})),
+            http_req(1, resp=cut_a), http_req(0, resp=cut_a)]})
+    truth_views(cs[-1]["nodes"])
     # a client that half-closes (shuts down its sending side, keeps reading) while the upstream takes 150 ms: it gets the
     # upstream's answer or a gateway answer, never a fabricated one (seeded change C08-4: 404 on context.Canceled)
     slow = mk_resp(200, [("X-R", "1")], {"hex": H("late")}); slow["delay_ms"] = 150
@@ -455,7 +468,10 @@ def gen_cluster(rng, cid, profile):
         else:
             reqs.append(gen_http(rng, nodes, eps, rng.random() < profile.get("p_rich", 0.3)))
     reqs.sort(key=lambda r: 1 if is_env_fault(r) else 0)     # stable: environment faults last (left out of the Coq comparison)
-    return {"id": cid, "timeout_ms": NORMAL_TIMEOUT_MS, "kind": kind, "nodes": nodes, "requests": reqs, "access_log": gen_access_log(rng)}
+    cl = {"id": cid, "timeout_ms": NORMAL_TIMEOUT_MS, "kind": kind, "nodes": nodes, "requests": reqs, "access_log": gen_access_log(rng)}
+    if rng.random() < profile.get("p_agent", 0.0) and all(rq["kind"] == "http" for rq in reqs):
+        cl["via_agent"] = True      # client -> node(s) -> real agent reverse proxy -> service (monitors only)
+    return cl
 
 
 def gen_access_log(rng):
@@ -479,7 +495,7 @@ def gen_access_log(rng):
 PROFILES = {
     "C01": {"kinds": {"consistent": 45, "adversarial": 45, "failure": 10}, "p_tcp": 0.25, "p_rich": 0.15},
     "C06": {"kinds": {"adversarial": 70, "consistent": 20, "failure": 10}, "p_tcp": 0.2, "p_rich": 0.1},
-    "C08": {"kinds": {"consistent": 45, "failure": 20, "timeout": 25, "adversarial": 10}, "p_tcp": 0.03, "p_rich": 0.85,
+    "C08": {"kinds": {"consistent": 45, "failure": 20, "timeout": 25, "adversarial": 10}, "p_tcp": 0.03, "p_rich": 0.85, "p_agent": 0.25,
             "min_reqs": 5, "max_reqs": 8},
 }
 
@@ -927,7 +943,9 @@ def parse_m(out):
 
 def correspondence(pid, wd, clusters, outs, shard=16, tag="px"):
     """model vs implementation inside Coq; returns [{case, req, codes, names}]"""
-    ok = [(i, c, o) for i, (c, o) in enumerate(zip(clusters, outs)) if not o.get("panic") and len(o["requests"]) == len(c["requests"])]
+    # clusters whose upstreams sit behind a real agent reverse proxy are monitor-only: the model has no third hop
+    ok = [(i, c, o) for i, (c, o) in enumerate(zip(clusters, outs))
+          if not o.get("panic") and len(o["requests"]) == len(c["requests"]) and not c.get("via_agent")]
     jobs = [ok[i:i + shard] for i in range(0, len(ok), shard)]
 
     def work(arg):
